@@ -168,7 +168,12 @@ def do_check(mod, prop, tier, seed, repo, workdir, jobs):
         if orders and "preload_networks" not in d and i % 3:
             d["preload_networks"] = orders[(i % 3 - 1 + seed) % len(orders)]
         specs.append(d)
-    default_timeout = getattr(mod, "TIMEOUT", {}).get(tier, 900 if tier == "quick" else 6 * 3600)
+    # wall-clock watchdog per shard: only there to end a hang (its firing is "inconclusive", never a verdict), so it is generous --
+    # quick shards take seconds on an idle machine but were seen to take minutes at load average > 200
+    floor = 3600 if tier == "quick" else 8 * 3600
+    default_timeout = max(floor, getattr(mod, "TIMEOUT", {}).get(tier, floor))
+    if os.environ.get("VERIF_WATCHDOG_S"):
+        default_timeout = int(os.environ["VERIF_WATCHDOG_S"])
     results = run_specs(specs, repo, workdir, jobs, default_timeout)
 
     counters, required, notes, samples = {}, set(), [], []
